@@ -41,7 +41,8 @@ pub fn run(ctx: &Ctx, rep: &mut Report) {
         rep.begin_universe(uni);
         let mut u = U::new();
         let owner = u.principal();
-        let collector = u.principal();
+        // in a quarter of the universes one address holds both roles
+        let collector = if rng.chance(1, 4) { owner.clone() } else { u.principal() };
         let stranger = u.principal();
         let gs = u.env.register(AxelarGasService, (&owner, &collector));
         u.skip_events();
@@ -108,14 +109,20 @@ pub fn run(ctx: &Ctx, rep: &mut Report) {
             // who authorises
             let honest_signer = if inbound { spender.clone() } else { collector.clone() };
             let auth_class = *rng.pick(&["own", "own", "own", "own", "none", "stranger", "owner", "counterparty"]);
-            let auth = match auth_class {
-                "own" => Auth::Only(vec![honest_signer.clone()]),
-                "none" => Auth::Nobody,
-                "stranger" => Auth::AllBy(stranger.clone()),
-                "owner" => Auth::AllBy(owner.clone()),
-                _ => Auth::AllBy(if inbound { collector.clone() } else { receiver.clone() }),
+            let signer: Option<Address> = match auth_class {
+                "own" => Some(honest_signer.clone()),
+                "none" => None,
+                "stranger" => Some(stranger.clone()),
+                "owner" => Some(owner.clone()),
+                _ => Some(if inbound { collector.clone() } else { receiver.clone() }),
             };
-            let authorised = auth_class == "own" || (auth_class == "counterparty" && !inbound && receiver == collector);
+            let auth = match (&signer, auth_class) {
+                (Some(a), "own") => Auth::Only(vec![a.clone()]),
+                (Some(a), _) => Auth::AllBy(a.clone()),
+                (None, _) => Auth::Nobody,
+            };
+            // whoever the label, what counts is whether the signing address is the one the property names
+            let authorised = signer.as_ref() == Some(&honest_signer);
             let refused_by_token = t.kind == TokKind::Probe && probe_refuses;
             let token = (t.addr.clone(), amount);
             let payload = rng.bytes_upto(40);
